@@ -129,6 +129,13 @@ def just_tcp(B, pdu, r):
 
 
 JUST = {"rtu": just_rtu, "binary": just_binary, "ascii": just_ascii, "tcp": just_tcp}
+
+# PDU length (function code included) of the fixed-format messages: protocol facts. A frame whose announced length
+# hands the decoder MORE bytes than the message has is not "consistent with the PDU" even if every announced byte is there.
+# (only the data-access messages: the decoders of the requests without data and of the status/counter responses read
+#  what they need and ignore the rest on this tree; that leniency is not judged here)
+FIXED_PDU_LEN = {"req": {1: 5, 2: 5, 3: 5, 4: 5, 5: 5, 6: 5, 22: 7},
+                 "rsp": {5: 5, 6: 5, 15: 5, 16: 5, 22: 7}}
 FCPOS = {"rtu": 1, "binary": 2, "tcp": 7}
 
 
@@ -170,6 +177,10 @@ def make_just(framing, d, fc, L, with_client=False):
             pdu = pdu_of(spy, r)
             if pdu is None:
                 explain("delivered object did not come from the decoder")
+                return False
+            want = FIXED_PDU_LEN[d].get(getattr(r, "function_code", None))
+            if want is not None and len(pdu) != want and getattr(r, "function_code", 0) < 0x80:
+                explain("delivered %s from a PDU of %d bytes; that message has %d", type(r).__name__, len(pdu), want)
                 return False
             if not JUST[framing](B, pdu, r):
                 if framing == "tcp":
@@ -323,6 +334,10 @@ def obligations(tier):
                                    findings=(("KF-tcp-headerless-error-frame",) if framing == "tcp" and fc in (3, 0x55) and L == 12 else ()) +
                                             (("KF-ascii-lenient-lrc-field",) if framing == "ascii" and fc in (6, 7) and d == "rsp" else ()),
                                    bounds="%s framing, %s decoder, any %d-byte buffer whose function-code byte is 0x%02X, one read" % (framing, d, L, fc)))
+    # a fixed-format request with room for trailing bytes behind it (announced length symbolic)
+    for fc, L in (((22, 15),) if tier == "quick" else ((22, 15), (6, 13), (3, 13), (5, 14))):
+        out.append(Obl("just.tcp.req.fc%d.len%d" % (fc, L), make_just("tcp", "req", fc, L), timeout=T,
+                       bounds="tcp framing, server decoder, any %d-byte buffer whose function-code byte is 0x%02X (room for bytes behind a fixed-format PDU), one read" % (L, fc)))
     # the same question for a framer constructed the way the synchronous clients construct it (with a client object)
     for framing, L in (("tcp", 9), ("tcp", 12), ("rtu", 7)) if tier == "quick" else (("tcp", 9), ("tcp", 10), ("tcp", 12), ("rtu", 7), ("rtu", 8), ("ascii", 13)):
         for fc in ((1, 3) if tier == "quick" else (1, 2, 3, 17, 24, 43, 0x83)):
